@@ -68,8 +68,8 @@ static void smallBufferRun() {
   sim_note("size", (int64_t)N);
   sim_note("threads", nThreads);
   sim_note("diag", diag);
-  std::set<char*>& live = *new std::set<char*>();
-  std::vector<char*>& handoff = *new std::vector<char*>(); // blocks freed by another thread
+  std::set<char*>& live = immortal<std::set<char*>>();
+  std::vector<char*>& handoff = immortal<std::vector<char*>>(); // blocks freed by another thread
   auto got = [&](char* p) {
     if (!p || ((uintptr_t)p % N) != 0) {
       snprintf(cls, sizeof cls, "small-buffer%zu:misaligned", N);
@@ -199,7 +199,7 @@ template <bool kThreadSafe>
 static void poolAllocRun() {
   char cls[128];
   const char* name = kThreadSafe ? "PoolAllocator" : "NoLockPoolAllocator";
-  SlabLog& log = *new SlabLog();
+  SlabLog& log = immortal<SlabLog>();
   static const size_t chunkSizes[] = {16, 64, 24};
   size_t chunk = oneOf(chunkSizes);
   size_t slab = chunk * (size_t)range(1, 6);
@@ -207,7 +207,7 @@ static void poolAllocRun() {
   sim_note("chunk", (int64_t)chunk);
   sim_note("slab", (int64_t)slab);
   sim_note("threads", nThreads);
-  std::set<char*>& live = *new std::set<char*>();
+  std::set<char*>& live = immortal<std::set<char*>>();
   {
     dispenso::PoolAllocatorT<kThreadSafe> pool(
         chunk, slab,
@@ -313,7 +313,7 @@ static void wlThreadId() {
   int generations = range(1, 3);
   sim_note("threads", nThreads);
   sim_note("generations", generations);
-  std::set<uint64_t>& seen = *new std::set<uint64_t>();
+  std::set<uint64_t>& seen = immortal<std::set<uint64_t>>();
   seen.insert(dispenso::threadId());
   for (int g = 0; g < generations; ++g) {
     std::vector<std::thread> threads;
